@@ -46,12 +46,27 @@ def assume(cond):
     if _MODE["sym"]:
         from crosshair.core import IgnoreAttempt
         from crosshair.statespace import prefer_true
+        from crosshair.tracers import NoTracing
 
-        if not prefer_true(cond):
+        if cond is True:
+            return
+        with NoTracing():  # prefer_true must run untraced (else the solver bookkeeping itself is interpreted)
+            ok = prefer_true(cond)
+        if not ok:
             raise IgnoreAttempt("pre")
     else:
         if not cond:
             raise Reject("precondition")
+
+
+def only_shard(key, P):
+    """Keep this path only if the (concrete) key belongs to this shard."""
+    if int(key) % P["nshards"] != P["shard"]:
+        if _MODE["sym"]:
+            from crosshair.core import IgnoreAttempt
+
+            raise IgnoreAttempt("shard")
+        # native replay: shards are a partition of one space, any shard may replay any point
 
 
 def concretize(x):
@@ -64,11 +79,11 @@ def concretize(x):
 
 
 def fork_int(x, lo, hi):
-    """Concrete int equal to x, one solver-decided branch per value in [lo, hi] (no duplicate paths, unlike realize)."""
-    assume(lo <= x)
-    assume(x <= hi)
-    if not _MODE["sym"]:
-        return int(x)
+    """Concrete int in [lo, hi] determined by x, one solver-decided branch per value.
+
+    Total: x == v for v in [lo, hi) maps to v, every other integer maps to hi -- so no precondition (and no
+    rejected leaf in the path tree) is needed and native replay computes the same value.
+    """
     for v in range(lo, hi):
         if x == v:
             return v
